@@ -26,6 +26,7 @@ inductive RefKind where
   | dataDelta (n : Nat) (base : Nat)   -- embedded (label - base) of n bytes
   | jmpAbs                       -- jmp/call/jcc to an absolute address (label field unused)
   | a64Abs (k : CodeHolder.A64Kind)
+  | memAbs (immLen : Nat)        -- memory operand naming an absolute address (no base / index / label)
   deriving Repr, Inhabited, DecidableEq
 
 structure Ref where
@@ -77,6 +78,7 @@ def ghostStep (g : Ghost) (op : Op) (err : Err) (size : Nat) : Ghost :=
   | .relocate b => if err = .ok then { g with relocated := some b } else g
   | .jmpAbs _ _ t => addRef .jmpAbs 0 t
   | .a64Abs k t => addRef (.a64Abs k.kind) 0 t
+  | .memAbs k _ t => addRef (.memAbs (k.ashape g.arch).imm.length) 0 t
 
 /-- what the implementation shows at the end: layout + bytes of every section, and its unresolved counter -/
 structure DumpSec where
@@ -116,6 +118,36 @@ def x86BranchField (buf : Bytes) (p0 : Nat) : Option (Nat × Nat) :=
   | none => none
 
 def sextN (n : Nat) (v : Nat) : BitVec 64 := (BitVec.ofNat (8 * n) v).signExtend 64
+
+/-- x86 ISA: the memory operand of a one-byte-opcode instruction that starts at `p0` (legacy prefixes 67h / 66h, then a REX
+prefix in 64-bit mode, the opcode, ModRM [, SIB]); returns (has 67h, REX.W, opcode, rip-relative?, position of disp32) for
+the two forms without a base register: `mod=00 rm=101` and `mod=00 rm=100` + SIB `base=101 index=100` -/
+def x86AbsOperand (buf : Bytes) (p0 : Nat) (is64 : Bool) : Option (Bool × Bool × BitVec 8 × Bool × Nat) :=
+  let has67 := buf[p0]? = some 0x67#8
+  let p1 := if has67 then p0 + 1 else p0
+  let p2 := if buf[p1]? = some 0x66#8 then p1 + 1 else p1
+  let rex : Option (BitVec 8) := match buf[p2]? with
+    | some b => if is64 ∧ b &&& 0xF0#8 = 0x40#8 then some b else none
+    | none => none
+  let p3 := if rex.isSome then p2 + 1 else p2
+  let rexW := match rex with | some b => b &&& 0x08#8 ≠ 0#8 | none => false
+  match buf[p3]?, buf[p3 + 1]? with
+  | some opc, some m =>
+    if m &&& 0xC7#8 = 0x05#8 then some (has67, rexW, opc, is64, p3 + 2)
+    else if m &&& 0xC7#8 = 0x04#8 ∧ buf[p3 + 2]? = some 0x25#8 then some (has67, rexW, opc, false, p3 + 3)
+    else none
+  | _, _ => none
+
+/-- x86 ISA: `A0..A3` (mov between the accumulator and `[moffs]`): position and size of the address literal
+(address size = 4 in 32-bit mode, 8 in 64-bit mode; no 67h in the menu) -/
+def x86Moffs (buf : Bytes) (p0 : Nat) (is64 : Bool) : Option (Nat × Nat) :=
+  let p1 := if buf[p0]? = some 0x66#8 then p0 + 1 else p0
+  let p2 := match buf[p1]? with
+    | some b => if is64 ∧ b &&& 0xF0#8 = 0x40#8 then p1 + 1 else p1
+    | none => p1
+  match buf[p2]? with
+  | some b => if b &&& 0xFC#8 = 0xA0#8 then some (p2 + 1, if is64 then 8 else 4) else none
+  | none => none
 
 inductive Verdict where
   | correct            -- the bytes designate exactly the target
@@ -222,6 +254,35 @@ def judgeRef (g : Ghost) (d : Dump) (r : Ref) : Verdict :=
             loadLE s.buf (slot.toNat - s.offset.toNat) 8 == some r.addend.toNat
           if hit then .correct else .bad "address-table-slot-missing-or-wrong"
         | _, _, _ => .bad "not-a-branch-opcode"
+  | .memAbs immLen =>
+    -- the address the CPU uses: rip-relative = end of instruction + sext(disp32) (needs the final base); absolute =
+    -- sext(disp32), or zext(disp32) under a 67h prefix; `lea r32, [..]` keeps the low 32 bits
+    match x86Moffs buf r.start (g.arch = .x64) with
+    | some (fp, n) =>
+      -- `mov acc, [moffs]` / `mov [moffs], acc`: the address is the literal that follows the opcode
+      if fp + n ≠ r.stop then .bad "memory-operand-length" else
+      match loadLE buf fp n with
+      | some v => if BitVec.ofNat 64 v == (if g.arch = .x86 then r.addend &&& 0xFFFFFFFF#64 else r.addend) then .correct
+                  else .bad "absolute-operand-wrong-address"
+      | none => .bad "field-out-of-buffer"
+    | none =>
+    match x86AbsOperand buf r.start (g.arch = .x64) with
+    | none => .bad "not-an-absolute-memory-operand"
+    | some (has67, rexW, opc, ripRel, fp) =>
+      if fp + 4 + immLen ≠ r.stop then .bad "memory-operand-length" else
+      match loadLE buf fp 4 with
+      | none => .bad "field-out-of-buffer"
+      | some v =>
+        if ripRel then
+          match g.relocated with
+          | none => .pendingOk
+          | some base =>
+            if base + so + BitVec.ofNat 64 r.stop + sextN 4 v == r.addend then .correct else .bad "absolute-operand-wrong-address"
+        else
+          let ea : BitVec 64 := if g.arch = .x86 ∨ has67 then BitVec.ofNat 64 v else sextN 4 v
+          let want : BitVec 64 := if g.arch = .x86 then r.addend &&& 0xFFFFFFFF#64 else r.addend
+          if ea == want ∨ (opc = 0x8D#8 ∧ !rexW ∧ ea &&& 0xFFFFFFFF#64 == want) then .correct
+          else .bad "absolute-operand-wrong-address"
   | .a64Abs k =>
     match g.relocated, loadLE buf r.start 4 with
     | some base, some v =>
